@@ -93,7 +93,7 @@ def maps_for(f, tier):
     def prio(n, v):
         if v[0] == "V":
             return 0
-        if v[0] == "B" and any(("'%s'" % o) in repr(v) for o in names if o != n):
+        if v[0] in ("B", "U") and any(("'%s'" % o) in repr(v) for o in names if o != n):
             return 1  # an expression mentioning a sibling input of f
         return 2
 
@@ -240,6 +240,16 @@ def _viol(e, seed, key, label, k2, msg, kind):
     # keys that are free inputs of ANOTHER key's value (of any kind: tensor, expression, variable)
     free_in_other = {k for k in keys for k2, v in e[2] if k2 != k and k in lang.ty(v).inputs}
     f["key_free_in_other_value_bound_to"] = sorted({v[0] for k, v in e[2] if k in free_in_other})
+
+    def kind_of(v):
+        if v[0] in ("V", "N", "T", "Slice"):
+            return "simple"
+        ops_ = {x[1] for x in lang.subterms(v) if x[0] in ("B", "U")}
+        if lang.ty(v).out[0] == "real" and ops_ <= {"add", "sub", "mul", "neg"} and all(x[0] in ("B", "U", "V", "N", "T") for x in lang.subterms(v)):
+            return "affine"
+        return "lazy"  # an expression funsor cannot absorb: handled by wrapping Subs(result, lazy_subs)
+
+    f["key_free_in_other_value_bound_to_kind"] = sorted({kind_of(v) for k, v in e[2] if k in free_in_other})
     f["expression_value_mentions_substituted_key"] = bool(mentioned)
     # what the mentioned keys are themselves bound to (B = another expression, T/N = a constant, V = a renaming)
     f["mentioned_key_bound_to"] = sorted({v[0] for k, v in e[2] if k in mentioned})
